@@ -17,6 +17,9 @@ pub struct Recorder {
     pub routing_checks: usize,
     pub routing_mismatch: Vec<String>,
     pub crosscheck_every: usize,
+    /// C12: run every Pinocchio-served instruction also through the Anchor handler on a copy and compare
+    pub dual: bool,
+    pub dual_runs: usize,
     known_prices: BTreeSet<i32>,
     pub samples: Vec<Value>,
 }
@@ -25,9 +28,21 @@ pub fn price_of(t: i32) -> u128 {
     whirlpool::math::sqrt_price_from_tick_index(t)
 }
 
+/// the Pinocchio-served instructions whose Anchor handler still exists (by-token-amounts and reposition are Pinocchio-only)
+pub const PINO_NAMES: &[&str] = &["increase_liquidity", "decrease_liquidity", "increase_liquidity_v2", "decrease_liquidity_v2"];
+
 impl Recorder {
+    fn dual_run(&mut self, w: &World, ix: &Ix) -> (crate::svm::Bank, Exec) {
+        let mut bank = w.bank.clone();
+        crate::svm::set_clock(w.now);
+        crate::svm::set_anchor_only(true);
+        let ex = bank.process(&ix.instruction());
+        crate::svm::set_anchor_only(false);
+        self.dual_runs += 1;
+        (bank, ex)
+    }
     pub fn new(out: Box<dyn Write>) -> Recorder {
-        Recorder { out, events: 0, resets: 0, stats: BTreeMap::new(), panics: 0, routing_checks: 0, routing_mismatch: vec![], crosscheck_every: 0, known_prices: BTreeSet::new(), samples: vec![] }
+        Recorder { out, events: 0, resets: 0, stats: BTreeMap::new(), panics: 0, routing_checks: 0, routing_mismatch: vec![], crosscheck_every: 0, dual: false, dual_runs: 0, known_prices: BTreeSet::new(), samples: vec![] }
     }
     pub fn to_file(path: &str) -> Recorder {
         let f = std::fs::File::create(path).unwrap_or_else(|e| panic!("cannot create {path}: {e}"));
@@ -99,14 +114,32 @@ impl Recorder {
     /// Execute and record one instruction.
     pub fn exec(&mut self, w: &mut World, ix: &Ix, must: bool, tag: Value) -> Exec {
         let inst = ix.instruction();
-        if self.crosscheck_every > 0 && self.events % self.crosscheck_every == 0 {
+        let mut routing = "none".to_string();
+        if self.crosscheck_every > 0 && self.events % self.crosscheck_every == 0 && ix.program == crate::world::WP {
             crate::svm::set_clock(w.now);
             self.routing_checks += 1;
+            routing = "same".to_string();
             if let Some(m) = w.bank.routing_crosscheck(&inst) {
                 self.routing_mismatch.push(format!("{}: {}", ix.name, m));
+                routing = m;
             }
         }
+        let dual = if self.dual && PINO_NAMES.contains(&ix.name.as_str()) { Some(self.dual_run(w, ix)) } else { None };
         let ex = w.exec_raw(&inst);
+        let dual = dual.map(|(bank_a, ex_a)| {
+            // compare the Anchor run (on a copy) with the Pinocchio run (the real one)
+            let mut differing: Vec<String> = vec![];
+            let keys: std::collections::BTreeSet<_> = bank_a.accts.keys().chain(w.bank.accts.keys()).cloned().collect();
+            for k in keys {
+                if bank_a.accts.get(&k) != w.bank.accts.get(&k) {
+                    differing.push(w.id(&k));
+                }
+            }
+            let ev_a = decode_events(w, &ex_a);
+            let ev_p = decode_events(w, &ex);
+            json!({"present": true, "codeAnchor": nu(ex_a.code as u128), "codePino": nu(ex.code as u128), "panicAnchor": ex_a.panic.is_some(), "panicPino": ex.panic.is_some(),
+                   "differing": differing, "sameEvents": ev_a == ev_p, "eventsAnchor": ev_a.len()})
+        });
         let proj = w.project();
         let d = project::diff(&w.last_proj, &proj);
         let swaps: Vec<Value> = ex
@@ -144,6 +177,7 @@ impl Recorder {
             "must": must, "now": nu(w.now as u128), "tag": tag,
             "logs": if ex.ok() { vec![] } else { ex.logs.iter().rev().take(4).rev().cloned().collect::<Vec<_>>() },
             "swaps": swaps, "events": evs, "diff": d, "prices": prices,
+            "dual": dual.unwrap_or(json!({"present": false})), "routing": routing,
         });
         w.last_proj = proj;
         self.write(&ev);
@@ -163,6 +197,6 @@ impl Recorder {
             m.insert(k.clone(), json!({"ok": a, "fail": b}));
         }
         json!({"events": self.events, "resets": self.resets, "by_ix": m, "panics": self.panics,
-               "routing_checks": self.routing_checks, "routing_mismatch": self.routing_mismatch})
+               "routing_checks": self.routing_checks, "routing_mismatch": self.routing_mismatch, "dual_runs": self.dual_runs})
     }
 }
